@@ -50,6 +50,9 @@ type V struct {
 	Items  []*V    `json:"items,omitempty"`  // slice elements / map value (Items[0]) / struct field values
 	Struct int     `json:"struct,omitempty"` // struct type index
 	Nil    bool    `json:"nil,omitempty"`    // nil slice / nil map
+	// top-level maps only: further keys that were inserted (with value GoneVal) and deleted again before printing
+	Gone    []*V `json:"gone,omitempty"`
+	GoneVal *V   `json:"gone_val,omitempty"`
 }
 
 // T is a type.
@@ -456,7 +459,14 @@ func hostValue(vm *goat.VM, v *V) goatlang.Value {
 		if v.Key != nil {
 			in = append(in, hostValue(vm, v.Key), hostValue(vm, v.Items[0]))
 		}
-		return goatlang.NewMap(goatT[v.S], hostType(vm, v.Elem), in)
+		m := goatlang.NewMap(goatT[v.S], hostType(vm, v.Elem), in)
+		for _, k := range v.Gone {
+			m.Set(hostValue(vm, k), hostValue(vm, v.GoneVal))
+		}
+		for _, k := range v.Gone {
+			m.Delete(hostValue(vm, k))
+		}
+		return m
 	case "struct":
 		base := vm.Get(fmt.Sprintf("main.T%d", v.Struct))
 		var data []goatlang.Value
@@ -531,6 +541,27 @@ func genCase(rt *rapid.T) *Case {
 			ev.R().Class("excluded_by_known_finding:c14-deep-nesting-elided")
 			g.defs = g.defs[:save]
 		}
+		if v.K == "map" && !v.Nil && rapid.Bool().Draw(rt, "maphistory") {
+			// the map has a past: other keys were inserted and deleted again
+			v.GoneVal = g.genValue(rt, v.Elem, false)
+			seen := map[string]bool{}
+			if v.Key != nil {
+				seen[literal(v.Key, true)] = true
+			}
+			for j := rx.Range(rt, "ngone", 1, 3); j > 0; j-- {
+				k := genScalar(rt, v.S, false)
+				if k.K == "float64" && math.IsNaN(k.float()) {
+					continue
+				}
+				if !seen[literal(k, true)] {
+					seen[literal(k, true)] = true
+					v.Gone = append(v.Gone, k)
+				}
+			}
+			if v.GoneVal.depth(g.defs)+1 > deepAllowed {
+				v.Gone, v.GoneVal = nil, nil
+			}
+		}
 		c.Vals = append(c.Vals, v)
 	}
 	c.Defs = g.defs
@@ -572,6 +603,14 @@ func (c *Case) script() string {
 			fmt.Fprintf(&sb, "%s%s := %s\n", ind, name, literal(v, true))
 		} else {
 			fmt.Fprintf(&sb, "%svar %s %s = %s\n", ind, name, typeOf(v).goName(), literal(v, false))
+		}
+	}
+	for i, v := range c.Vals {
+		for _, k := range v.Gone {
+			fmt.Fprintf(&sb, "%sv%d[%s] = %s\n", ind, i, literal(k, false), literal(v.GoneVal, false))
+		}
+		for _, k := range v.Gone {
+			fmt.Fprintf(&sb, "%sdelete(v%d, %s)\n", ind, i, literal(k, false))
 		}
 	}
 	args := strings.Join(names, ", ")
